@@ -62,6 +62,29 @@ def paramJson : Param → Json
   | .arr xs => Json.mkObj [("arr", jarr (xs.map scalarJson))]
   | .arr2 xss => Json.mkObj [("arr2", jarr (xss.map fun xs => jarr (xs.map scalarJson)))]
 
+/-- a value: a rational `[p,q]` or a closed term (e.g. a complex number `re + im * I(1)`) -/
+def asVal (j : Json) : R Expr :=
+  match asRat j with
+  | .ok q => pure (.num q)
+  | .error _ => asExpr j
+
+def asStrVals (j : Json) : R (List (String × Expr)) := do
+  let a ← j.getArr?
+  a.toList.mapM fun x => do
+    match (← x.getArr?).toList with
+    | [k, v] => pure ((← k.getStr?), (← asVal v))
+    | _ => throw "table entry"
+
+def asNatVals (j : Json) : R (List (Nat × Expr)) := do
+  let a ← j.getArr?
+  a.toList.mapM fun x => do
+    match (← x.getArr?).toList with
+    | [k, v] => pure ((← k.getNat?), (← asVal v))
+    | _ => throw "table entry"
+
+def mkEnvV (fr : List (String × Expr)) (ms : List (Nat × Expr)) : Env Expr :=
+  ⟨fun n => (fr.find? (·.1 == n)).map (·.2), fun m => (ms.find? (·.1 == m)).map (·.2)⟩
+
 /-- `[[key, [p,q]], …]` as a finite map to rationals -/
 def asStrTab (j : Json) : R (List (String × Rat)) := do
   let a ← j.getArr?
@@ -161,9 +184,14 @@ def handler (op : String) (j : Json) : Option (R Json) :=
   match op with
   | "param.info" => some do
     let p ← asParam (← j.getObjVal? "p")
-    let fr ← tabD j "free" asStrTab []
-    let ms ← tabD j "meas" asNatTab []
-    pure <| Json.mkObj [("eval", resJson (p.eval (mkEnv fr ms))),
+    let fr ← tabD j "free" asStrVals []
+    let ms ← tabD j "meas" asNatVals []
+    let env := mkEnvV fr ms
+    -- "dtype": the atoms are cast (closed term `f(v)`, folded by the harness) before evaluation
+    let res := match getStr j "dtype" with
+      | .ok f => p.evalCast (Expr.fn1 f) env
+      | .error _ => p.eval env
+    pure <| Json.mkObj [("eval", resJson res),
       ("deps", natList (p.deps.foldr insertSorted [])), ("sym", Json.bool p.isSymbolic)]
   | "param.subst" => some do
     let p ← asParam (← j.getObjVal? "p")
@@ -202,6 +230,25 @@ def handler (op : String) (j : Json) : Option (R Json) :=
       ("err", match o.fin with | .ok _ => Json.null | .error e => Json.str (errStr e)),
       ("regs", match o.fin with | .ok r => jarr (q.map fun m => match r m with | some v => exprJson v | none => Json.null) | .error _ => Json.null),
       ("last", jarr (q.map last))]
+  | "param.convert" => some do
+    let e ← asExpr (← j.getObjVal? "e")
+    pure <| match convert e with
+      | some e' => exprJson e'
+      | none => Json.null
+  | "param.session" => some do
+    let fr ← tabD j "free" asStrTab []
+    let evs ← (← getArr j "events").mapM fun ev => do
+      match ev.getObjVal? "run" with
+      | .ok segs => do
+        let segs ← (← segs.getArr?).toList.mapM fun s => do
+          let own ← tabD s "own" asNatVals []
+          let cs ← (← getArr s "cmds").mapM asCmd
+          pure ((fun m => (own.find? (·.1 == m)).map (·.2) : Regs Expr), cs)
+        pure (Ev.run segs)
+      | .error _ => pure Ev.reset
+    let outs := runEvents (fun n => (lookupS fr n).map Expr.num) {} evs
+    pure <| jarr (outs.map fun o => Json.mkObj [("trace", jarr (o.1.map exprJson)),
+      ("err", match o.2 with | none => Json.null | some e => Json.str (errStr e))])
   | "param.free" => some do
     let steps ← getArr j "steps"
     pure <| jarr (← runFreeScript steps)
